@@ -384,6 +384,13 @@ def c18_cases(tier):
         for first in ((False,) if quick else (False, True)):
             for lang in langs:
                 add("foreign", "foreign:%s" % ("+".join(fs) or "none"), wrapped_model(ctxs, w, "Box", fs, foreign_first=first), lang)
+    # S3b users of `const TypeLayout *`: undeclared / declared as a struct / (C++) declared as an alias
+    for kind in ("layout_undeclared", "layout_struct", "layout_alias"):
+        for (ctxs, w) in ((["arc"], None), (["arc", "MyCtx"], ["borrow", "into", "get_mut"])):
+            for lang in langs:
+                if kind == "layout_alias" and lang == "c":
+                    continue  # C spells an alias `typedef struct LayoutInfo TypeLayout;`: outside what the tool documents
+                add("foreign", "foreign:%s" % kind, wrapped_model(ctxs, w, "Box", [kind]), lang)
     # S4 configuration keys: every combination, on a header in which some objects match and some do not
     cm = config_model()
     for cfg in all_configs():
